@@ -141,13 +141,15 @@ def rule_solvers_stateless(ctx):
                 if c and c.get("trait") == SATSOLVER and callee_matches(c, r"::(add_clause|solve|solve_under_assumptions|reserve)$"):
                     nq += 1
                     ok = False
-                    srcs = origins(b, s.node["args"][0], transparent=("core::ops::deref::Deref::deref", "core::ops::deref::DerefMut::deref_mut", "core::convert::AsMut::as_mut", "core::convert::AsRef::as_ref", "core::cell::RefCell::borrow_mut", "core::cell::RefCell::borrow", "alloc::rc::Rc::new", "core::cell::RefCell::new", "alloc::boxed::Box::new"))
+                    srcs = origins(b, s.node["args"][0], transparent=("core::ops::deref::Deref::deref", "core::ops::deref::DerefMut::deref_mut", "core::convert::AsMut::as_mut", "core::convert::AsRef::as_ref", "core::cell::RefCell::borrow_mut", "core::cell::RefCell::borrow", "alloc::rc::Rc::new", "core::cell::RefCell::new", "alloc::boxed::Box::new", "core::option::Option::take", "core::option::Option::unwrap", "core::option::Option::expect", "core::option::Option::unwrap_or_else", "core::mem::replace", "core::mem::take"))
                     kinds = set()
                     for o in srcs:
                         if o.kind == "call" and (callee_matches(o.data, r"ops::function::Fn::call$") or o.data.get("decl") == "<indirect>"):
                             kinds.add("factory")
                         elif o.kind == "param" or o.kind == "upvar":
                             kinds.add("passed-in")
+                        elif o.kind == "agg" and o.data.get("variant") == "None":
+                            continue  # the empty state of a local Option<solver>
                         elif o.kind == "call":
                             from .provenance import encoding_helper_summary
 
